@@ -207,8 +207,8 @@ package xmpp
 //
 //@ func xmpp.SendMissingStz(lastSent, s, uaq) (err)
 //@   requires s != nil
-//@   requires [C05.nilqueue] uaq != nil
-//@   requires wfQueue(uaq) && uaq == senderQueue(s)
+//@   requires wfQueue(uaq) && (uaq != nil ==> uaq == senderQueue(s))
+//@   ensures [C05.nilqueue] uaq == nil ==> err == nil && count(Send) == old(count(Send)) && count(SendRaw) == old(count(SendRaw))
 //@   ensures wfQueue(uaq) && backingOK(uaq)
 //@   assigns uaq.Uslice, senderQueue(s).Uslice
 //@   emits Send, SendAttrs, SendRaw, Write
